@@ -517,3 +517,68 @@ def known_conditions(fn, node):
     if fn.get("body") is not None:
         visit(fn["body"])
     return out
+
+
+def ctor_param_reads(fam, cname, fn):
+    """positions of the constructor parameters whose value the function reads through `this.<field>` (private helpers
+    seen through); a field computed from several parameters counts for all of them"""
+    c = fam.classes[cname]
+    owners = [cname]
+    k = c
+    while k.extends and k.extends in fam.classes:
+        owners.append(k.extends)
+        k = fam.classes[k.extends]
+    fp = {}
+    for on in owners:
+        oc = fam.classes[on]
+        ps = [p[0] for p in oc.ctor_params()]
+        for fld, rhs in oc.ctor_assignments().items():
+            ids = [x["value"] for x in walk(rhs) if x["type"] == "Identifier" and x["value"] in ps]
+            if ids:
+                fp.setdefault(fld, set()).update(ps.index(i) for i in ids)
+        if oc.ctor:
+            for p in oc.ctor.get("params", []):
+                if p["type"] == "TsParameterProperty":
+                    pat = p["param"]
+                    nm = pat.get("value") or (pat.get("left") or {}).get("value")
+                    if nm in ps:
+                        fp.setdefault(nm, set()).add(ps.index(nm))
+        if on != cname:
+            break      # own constructor first; one level of inheritance for the shared base fields
+    reads = set()
+    for x in tsast.walk_inl(fam.mod, cname, fn):
+        if x["type"] == "MemberExpression" and x["object"]["type"] == "ThisExpression" and x["property"]["type"] == "Identifier":
+            reads.add(x["property"]["value"])
+    return sorted({i for f_ in reads for i in fp.get(f_, ())})
+
+
+def field_matrix_rule(cx, rep, rid, methods):
+    """Every interface method of a runtime class walks the same structure: the constructor arguments.  The table
+    tables/ts_field_matrix.json records, per class and method, which constructor parameters the method reads on the
+    reviewed tree (by POSITION, so private field names may change).  A method that stops reading one of them no longer
+    validates / prints / hashes / describes that part of the type.  Reading more is fine."""
+    import json
+    import os
+    fam = Family(cx)
+    table = json.load(open(os.path.join(cx.verif, "tables", "ts_field_matrix.json")))["matrix"]
+    n = 0
+    for cname, row in sorted(table.items()):
+        c = fam.classes.get(cname)
+        if c is None:
+            continue
+        for mname in methods:
+            if mname not in row:
+                continue
+            m = c.methods.get(mname)
+            if m is None or m["function"].get("body") is None:
+                continue
+            n += 1
+            now = ctor_param_reads(fam, cname, m["function"])
+            lost = sorted(set(row[mname]) - set(now))
+            pnames = [p[0] for p in c.ctor_params()]
+            rep.ob(rid, "%s.%s" % (cname, mname), not lost,
+                   "%s.%s no longer reads constructor argument(s) %s: that part of the type is not %s any more, while the other methods of the class still treat it" % (
+                       cname, mname, [pnames[i] if i < len(pnames) else i for i in lost], {"validate": "validated", "schema": "printed in the schema", "hash256": "hashed", "hash": "hashed",
+                                                                                         "parseAfterValidation": "projected", "reportDecodeError": "reported"}.get(mname, "described")),
+                   fam.mod.loc(m), sample={"class": cname, "method": mname, "reads_ctor_params": now})
+    rep.floor(rid, "class x method cells compared", n, max(5, 8 * len(methods)))
